@@ -14,9 +14,16 @@ for name in names:
     meta = json.loads((sd / "meta.json").read_text())
     own = name.split("-")[0]
     checks = [own] + EXTRA.get(name, [])
+    if os.environ.get("OWN_ONLY") == "1":
+        checks = [own]
     wt = tempfile.mkdtemp(prefix="seedwt.", dir="/tmp"); os.rmdir(wt)
     subprocess.run(["git", "-C", "/repo", "worktree", "add", "--detach", wt, "HEAD", "-q"], check=True)
-    ok = subprocess.run(["git", "-C", wt, "apply", str(sd / "patch.diff")]).returncode == 0
+    patch = sd / "patch.diff"
+    rebased = sorted(sd.glob("patch_rebased_on_*.diff"))
+    if rebased:
+        patch = rebased[-1]  # the same change, re-expressed on top of a later fix: commit that touched the same lines
+    ok = subprocess.run(["git", "-C", wt, "apply", str(patch)]).returncode == 0
+    meta["patch_used"] = patch.name
     det = {}
     if ok:
         for c in checks:
